@@ -115,7 +115,7 @@ def main(args):
                "configurations (cache_remote on/off x lru / pass-through / evicting caches x handler modes ok, fail-once, "
                "fail-always) and exports every maximal history with the expected answer, handler-call count and store after "
                "each step; each is replayed on a real RefResolver (alternately through resolve() and through validation of "
-               "{\"$ref\": url}) with counting handlers and a stubbed urlopen; the store's key normalisation is a separate refinement model (MC_UriDict: the URIDict vs a plain map over normalised keys, all histories of set/delete with differently spelled keys). code side: seeded random histories of "
+               "{\"$ref\": url}) with counting handlers and a stubbed urlopen; the store's key normalisation is a separate refinement model (MC_UriDict: the URIDict vs a plain map over normalised keys, all histories of set/delete with differently spelled keys). unbounded histories: the same design with an inductive invariant is discharged by Apalache (spec/apalache/ApaResolver.tla, 2 obligations). code side: seeded random histories of "
                "length <= 12 recorded from real resolvers, the whole history validated by TLC (Trace_C15). Non-trivial: a "
                "history touching a remote document; distinct by (configuration, history)." % nops)
     cfgs = sorted(glob.glob(os.path.join(tlc.SPEC, "mc", "MC_C15_%s_*.cfg" % args.tier)))
@@ -151,6 +151,28 @@ def main(args):
     ck.sample({"cache_remote": tasks[7][0], "cache_kind": tasks[7][1], "handler_modes": tasks[7][2],
                "history_with_expected_observations": tasks[7][3][0]})
 
+    # ---- unbounded histories: the inductive invariant of the same design, discharged by Apalache ----------------------
+    import subprocess
+    import shutil as _sh
+    adir = os.path.join(tlc.SPEC, "apalache")
+    aout = tlc.workdir("c15-apalache")
+    obligations = [("base case: Init => IndInv", ["--init=Init", "--length=0"]),
+                   ("inductive step: IndInv /\\ Next => IndInv'", ["--init=IndInit", "--length=1"])]
+    discharged = 0
+    for name, opts in obligations:
+        p = subprocess.run(["apalache-mc", "check", "--cinit=ConstInit", "--inv=IndInv", "--out-dir=" + aout] + opts + ["ApaResolver.tla"],
+                           cwd=adir, stdout=subprocess.PIPE, stderr=subprocess.STDOUT, universal_newlines=True, timeout=1800)
+        if "The outcome is: NoError" in p.stdout:
+            discharged += 1
+        elif "The outcome is: Error" in p.stdout:
+            raise tlc.MachineryFailure("the Resolver design's inductive invariant fails (%s): the model itself violates C15" % name)
+        else:
+            raise tlc.MachineryFailure("apalache-mc failed on %s:\n%s" % (name, p.stdout[-1500:]))
+    _sh.rmtree(aout, ignore_errors=True)
+    ck.notes["apalache_inductive_invariant"] = {"module": "spec/apalache/ApaResolver.tla", "obligations": len(obligations),
+                                                "discharged": discharged,
+                                                "meaning": "FetchOnce, StoreStable, LocalNeverFetched hold after ANY number of resolutions, for every "
+                                                           "configuration (cache_remote x cache kind x failing / failing-once handler sets)"}
     # ---- the store is a mapping keyed by normalised URIs: the URIDict refines a plain map over Uri keys (MC_UriDict) ------
     from jsonschema import _utils
     ru = tlc.run("mc/MC_UriDict.tla", cfg="mc/MC_UriDict_%s.cfg" % args.tier, workers=8, timeout=3000)
